@@ -32,7 +32,9 @@
 #define E_OK (FOFF + 12 <= TL && E_VL <= REC_CAP && FOFF + 12 + E_VL + 4 <= TL)
 /* X: exp64 | crc */
 #define X_OK (FOFF + 12 <= TL)
-#define PLAUSIBLE(ms) ((ms) > 0 && (ms) <= 10413792000000LL)
+/* the window's ceiling is the constant extracted from the header (a changed limit is seen); unit kv_expiry pins what it may be: every expiry
+ * the store can write is inside (P2) and every value inside is representable as a time_point (P3) */
+#define PLAUSIBLE(ms) ((ms) > 0 && (ms) <= kMaxPlausibleEpochMs)
 #define IMPL(a, b) (!(a) || (b))
 
 /* ---- one iteration of the replay loop (block target KVStore_load_step = the real `while (log.peek() != EOF) {...}` with the
